@@ -567,6 +567,17 @@ func (s *IndexedState) SearchForIDs(ctx *Context, pattern Map) ([]string, error)
 	Log(DEBUG, ctx, "IndexedState.SearchForIDs", "location", s.Name, "pattern", pattern)
 	terms := ExtractTerms(ctx, pattern)
 
+	if len(terms) == 0 {
+		// Nothing to look up in the term index (an empty pattern,
+		// or one made of variables and numbers only): every fact
+		// is a candidate, as it is for LinearState.
+		ids := make([]string, 0, len(s.IdToFact))
+		for id := range s.IdToFact {
+			ids = append(ids, id)
+		}
+		return ids, nil
+	}
+
 	ids, err := s.FactIndex.Search(ctx, terms)
 
 	return ids, err
